@@ -6,7 +6,7 @@ from hypothesis import strategies as st
 
 from gen.crystals import build_crystal, crystal_specs, keys
 from oracles.models import springs_fc
-from vlib.case import Out, Sub, rng_from
+from vlib.case import LAYOUTS, Out, Sub, present, rng_from
 
 PROPERTY = "C11"
 TECHNIQUE = ("property-based testing (Hypothesis): tetrahedron vertex weights against the Hermite-Genocchi divided-difference "
@@ -75,7 +75,9 @@ def kernel_specs(draw, tier):
         vals = [vals[0]] * 4
     where = draw(st.sampled_from(["below", "in0", "in1", "in2", "above", "any"]))
     return {"vals": vals, "mode": mode, "where": where, "frac": draw(st.integers(1, 7)), "wany": draw(st.integers(-20, 660)),
-            "kind": draw(st.sampled_from(["I", "J"])), "centre": draw(st.integers(0, 3))}
+            "kind": draw(st.sampled_from(["I", "J"])), "centre": draw(st.integers(0, 3)),
+            # how the caller holds the 24 x 4 vertex values (the weight of the first vertex does not depend on the order of the other three)
+            "tlayout": draw(st.sampled_from(LAYOUTS)), "rowperm": draw(st.booleans())}
 
 
 def run_kernel(spec):
@@ -106,12 +108,19 @@ def run_kernel(spec):
     c = spec["centre"]
     order = [c] + [k for k in range(4) if k != c]
     tet = np.array([[v[k] for k in order]] * 24, dtype="double")
+    if spec.get("rowperm"):
+        import itertools
+
+        others = list(itertools.permutations(order[1:]))
+        tet = np.array([[v[c]] + [v[k] for k in others[r % 6]] for r in range(24)], dtype="double")
+    tet = present(tet, spec.get("tlayout", "array"))
     ref = float(vertex_weight([Fr(x, 64) for x in spec["vals"]], c, Fr(wi, 512), kind)) * 4
     got = get_tetrahedra_integration_weight(float(w), tet, function=kind)
     got_arr = get_tetrahedra_integration_weight(np.array([w, w]), tet, function=kind)[1]
     ties = len(s) < 4
     scale = max(1.0, abs(ref))
-    classes = ["kind:" + kind, "mode:" + spec["mode"], "where:" + wh, "centre:%d" % c]
+    classes = ["kind:" + kind, "mode:" + spec["mode"], "where:" + wh, "centre:%d" % c, "tlayout:" + spec.get("tlayout", "array"),
+               "rows_permuted" if spec.get("rowperm") else "rows_identical"]
     tol = 1e-9 if not ties else 1e-6  # C treats |v_i - v_j| < THM_EPSILON ties by its own limiting rule
     if not np.isfinite(got) or abs(got - ref) > tol * scale:
         return Out(ok=False, classes=classes, msg="C tetrahedron %s weight %r != divided-difference value %r (vertex values %s/64, centre %d, probe %s/512)"
